@@ -23,6 +23,8 @@ pub enum SOp {
     ForEach(usize),
     EnumForEach(usize),
     Fold(usize),
+    /// enumerate_for_each(n) whose closure calls skip_to_end during its k-th invocation (1-based)
+    ForEachSkip(usize, usize),
     Skip,
     Len,
     HasMore,
@@ -109,6 +111,7 @@ impl SOp {
             SOp::ForEach(n) => format!("FE{}", size(n)),
             SOp::EnumForEach(n) => format!("EF{}", size(n)),
             SOp::Fold(n) => format!("FO{}", size(n)),
+            SOp::ForEachSkip(n, k) => format!("FS{}:{}", size(n), k),
             SOp::Skip => "S".into(),
             SOp::Len => "L".into(),
             SOp::HasMore => "H".into(),
@@ -162,6 +165,9 @@ impl SOp {
                     SOp::BufNew(parse_num(r)?)
                 } else if let Some(r) = p("BX") {
                     SOp::BufNext(parse_num(r)?)
+                } else if let Some(r) = p("FS") {
+                    let (n, k) = r.split_once(':').ok_or(format!("bad op '{s}'"))?;
+                    SOp::ForEachSkip(parse_num(n)?, parse_num(k)?)
                 } else if let Some(r) = p("FE") {
                     SOp::ForEach(parse_num(r)?)
                 } else if let Some(r) = p("EF") {
